@@ -843,10 +843,8 @@ func identitySource(getIdentity *ssa.Function, v ssa.Value, depth int) (rq ssa.V
 	}
 	cal := eng.Callee(&call.Call)
 	if cal == getIdentity {
-		if len(call.Call.Args) != 2 {
-			return nil, false
-		}
-		return call.Call.Args[1], true
+		rq := identityRequest(call)
+		return rq, rq != nil
 	}
 	if !eng.IsHelper(call.Parent(), cal) || call.Call.IsInvoke() || len(call.Call.Args) != len(cal.Params) {
 		return nil, false
@@ -879,4 +877,63 @@ func identitySource(getIdentity *ssa.Function, v ssa.Value, depth int) (rq ssa.V
 		}
 	}
 	return rq, n > 0
+}
+
+// identityRequest: the *http.Request a call of getIdentity concerns -- its
+// request argument, or the request whose RemoteAddr (and Context) it is handed.
+func identityRequest(call *ssa.Call) ssa.Value {
+	isReq := func(t types.Type) bool { return eng.IsNamed(t, "net/http", "Request") }
+	var rq ssa.Value
+	set := func(v ssa.Value) bool {
+		if rq != nil && eng.OriginX(rq) != eng.OriginX(v) {
+			return false
+		}
+		rq = v
+		return true
+	}
+	for _, a := range call.Call.Args {
+		switch {
+		case isReq(a.Type()):
+			if !set(a) {
+				return nil
+			}
+		case isStringType(a.Type()):
+			fr, base, isF := eng.LoadedField(a)
+			if !isF || fr.Name != "RemoteAddr" || !isReq(base.Type()) || !set(base) {
+				return nil
+			}
+		case eng.IsNamed(a.Type(), "context", "Context"):
+			cc, _ := eng.TupleCall(a)
+			if cc == nil || !eng.CalleeIs(&cc.Call, "net/http", "*Request.Context") || !set(cc.Call.Args[0]) {
+				return nil
+			}
+		}
+	}
+	return rq
+}
+
+// isRequestAddr: inside getIdentity, v is the RemoteAddr of the request being
+// served: r.RemoteAddr of its request parameter, or its address parameter
+// (every caller hands it some request's own RemoteAddr: identityRequest).
+func isRequestAddr(getIdentity *ssa.Function, v ssa.Value) bool {
+	if fr, base, ok := eng.LoadedField(v); ok && fr.Name == "RemoteAddr" {
+		for _, prm := range getIdentity.Params {
+			if eng.IsNamed(prm.Type(), "net/http", "Request") && eng.OriginX(base) == eng.OriginX(prm) {
+				return true
+			}
+		}
+		return false
+	}
+	prm, isP := eng.OriginX(v).(*ssa.Parameter)
+	if !isP || prm.Parent() != getIdentity || !isStringType(prm.Type()) {
+		return false
+	}
+	sites := eng.StaticCallSites(getIdentity)
+	for _, cs := range sites {
+		call, isCall := cs.(*ssa.Call)
+		if !isCall || identityRequest(call) == nil {
+			return false
+		}
+	}
+	return len(sites) > 0
 }
